@@ -8,40 +8,45 @@ open Code
 
 /-! ### One step -/
 
-theorem splitClose_length : ∀ (l b a : List Nat), splitClose l = some (b, a) → a.length < l.length
-  | [], _, _, h => by simp [splitClose] at h
-  | y :: l, b, a, h => by
-    simp only [splitClose] at h
-    split at h
-    · simp at h; simp [← h.2]
-    · split at h
-      · simp at h
-      · rename_i b' a' heq
-        simp at h
-        have := splitClose_length l b' a' heq
-        simp [← h.2]; omega
+theorem classWalk_length (c : Nat) : ∀ (l : List Nat) (st : CState) (m : Bool), (classWalk c st m l).2.length ≤ l.length
+  | [], st, m => by cases st <;> simp [classWalk]
+  | x :: r, .member, m => by
+    have ih := fun st m => classWalk_length c r st m
+    simp only [classWalk]
+    split
+    · have := ih .esc m; simp only [List.length_cons]; omega
+    · split
+      · simp
+      · split
+        · have := ih (.dash x) m; simp only [List.length_cons]; omega
+        · have := ih .member (m || x == c); simp only [List.length_cons]; omega
+  | x :: r, .esc, m => by
+    have := classWalk_length c r .member (m || x == c)
+    simp only [classWalk, List.length_cons]; omega
+  | x :: r, .dash lo, m => by
+    have := classWalk_length c r (.hi lo) m
+    simp only [classWalk, List.length_cons]; omega
+  | x :: r, .hi lo, m => by
+    have := classWalk_length c r .member (m || (decide (min lo x ≤ c) && decide (c ≤ max lo x)))
+    simp only [classWalk, List.length_cons]; omega
 
-theorem classStep_adv_length {q p' : List Nat} {c : Nat} (h : classStep q c = .adv p') : p'.length < q.length := by
+theorem classStep_adv_length {q p' : List Nat} {c : Nat} (h : classStep q c = .adv p') : p'.length ≤ q.length := by
   unfold classStep at h
+  dsimp only at h
+  have hb : (if (q.head? == some 94) = true then q.tail else q).length ≤ q.length := by split <;> simp
+  generalize (if (q.head? == some 94) = true then q.tail else q) = body at h hb
   split at h
+  · simp only [GStep.adv.injEq] at h
+    subst h
+    exact Nat.le_trans (classWalk_length c _ .member false) hb
   · simp at h
-  · rename_i cls rest hsc
-    dsimp only at h
-    by_cases hc : (classMatch c (if (cls.head? == some 94) = true then cls.tail else cls) != (cls.head? == some 94)) = true
-    · rw [if_pos hc] at h
-      simp only [GStep.adv.injEq] at h
-      subst h
-      exact splitClose_length q cls rest hsc
-    · rw [if_neg hc] at h
-      simp at h
 
 theorem classStep_ne_star {q p' : List Nat} {c : Nat} : classStep q c ≠ .star p' := by
   unfold classStep
-  split
-  · simp
-  · dsimp only
-    intro h
-    split at h <;> split at h <;> simp at h
+  dsimp only
+  generalize (if (q.head? == some 94) = true then q.tail else q) = body
+  intro h
+  split at h <;> simp at h
 
 theorem globStep_adv_length {p p' : List Nat} {c : Nat} (h : globStep p c = .adv p') : p'.length < p.length := by
   unfold globStep at h
@@ -54,7 +59,7 @@ theorem globStep_adv_length {p p' : List Nat} {c : Nat} (h : globStep p c = .adv
       · simp at h
       · split at h
         · have := classStep_adv_length h
-          simp; omega
+          simp only [List.length_cons]; omega
         · split at h
           · split at h
             · split at h
